@@ -348,8 +348,56 @@ def corpus_worlds():
     return out
 
 
+FIXTURES = [("models_tests/domain_miconic.pddl", "models_tests/miconic_pfile_1-0.pddl"),
+            ("models_tests/miconic_learned_domain.pddl", "models_tests/miconic_pfile_1-0.pddl"),
+            ("models_tests/nurikabe_domain.pddl", "models_tests/nurikabe_problem.pddl"),
+            ("exporters_tests/domain_spider.pddl", "exporters_tests/pfile01_spider.pddl")]
+
+
+def fixture_worlds(rng, tier):
+    """the repository's own domains with conditional / universal effects: states along a guided random walk"""
+    from ..common import REPO
+    jobs = []
+    for dom, prob in FIXTURES:
+        d, p = REPO / "tests" / dom, REPO / "tests" / prob
+        if d.exists() and p.exists():
+            jobs.append({"op": "c03.fixture_walk", "domain": str(d), "problem": str(p), "seed": rng.randint(1, 10 ** 6),
+                         "steps": (1 if d.stat().st_size > 2000 else 4) if tier == "quick" else 12, "name": dom,
+                         "big": d.stat().st_size > 2000})
+    out = []
+    for job, res in zip(jobs, run_impl(jobs, nproc=min(4, len(jobs))) if jobs else []):
+        if "probes" not in res or not res["probes"]:
+            out.append({"skipped": job["name"], "why": res.get("raised") or "no probes"})
+            continue
+        states, ptexts, probes, index = [], [], [], {}
+        for pr in res["probes"]:
+            key = json.dumps(pr["state"], sort_keys=True)
+            if key not in index:
+                index[key] = len(states)
+                states.append(pr["state"])
+                o = []
+                for n, t in res["objects"]:
+                    o += [n, "-", t]
+                init = [["=", [f] + a, repr(float.fromhex(v))] for f, a, v in pr["state"]["fluents"]] + \
+                       [[p] + a for p, a in pr["state"]["facts"]]
+                ptexts.append(G.render(["define", ["problem", "fx"], [":domain", res.get("domain_name", "fx")], [":objects"] + o, [":init"] + init,
+                                        [":goal", ["and"]]]))
+            for k in ((1,) if (tier == "quick" and job["big"]) else (None, 1)):
+                probes.append({"action": pr["action"], "args": pr["args"], "state": index[key], "perm": k, "uperm": k,
+                               "inner_seed": 0 if k is None else 7, "klass": None, "shape": {}})
+        # one world per state: the literals of these states are large, separate worlds land in separate (parallel) shards
+        for si in range(len(states)):
+            out.append({"domain_text": res["domain_text"], "objects": [tuple(x) for x in res["objects"]], "states": [states[si]],
+                        "problem_texts": [ptexts[si]], "probes": [dict(p, state=0) for p in probes if p["state"] == si],
+                        "stream": "fixture:" + job["name"], "features": ["fixture"], "witness_of": None, "compact": False})
+    return out
+
+
 def generate(rng, tier):
     worlds = corpus_worlds()
+    fx = fixture_worlds(rng, tier)
+    worlds += [w for w in fx if "skipped" not in w]
+    generate.skipped_fixtures = [w for w in fx if "skipped" in w]
     n = {"quick": 40, "thorough": 400}[tier]
     for _ in range(n):
         w = G.gen_world(rng, max_actions=2)
@@ -516,6 +564,7 @@ def run(args):
     decide(rep, PROP, "Corr.C03", all_cases, all_verdicts, info_total, explain_expr="explain (%s)", header_extra=HEADER,
            max_replays=5)
     cov = rep.coverage
+    stats["fixtures_skipped"] = getattr(generate, "skipped_fixtures", [])
     cov["input_distribution"] = stats
     cov["hash_seeds"] = hashseeds
     cov["numeric_config"] = cfg
@@ -523,7 +572,8 @@ def run(args):
     cov["exhaustive_scope"] = ("all effect bodies of 1 or 2 items out of %d (7 primitive effects, 25 'when', 24 'forall-when' over types t and its "
                                "subtype u) x all 8 fact sets over {p o0, p o1, q} x 2 fluent valuations x 2 calls: %d bodies%s"
                                % (len(xs_items()), len(xs_bodies()), "" if exhaustive else " (quick tier: a sample of 24 bodies)"))
-    cov["rule"] = ("streams: corpus witnesses; random typed domains (pddlgen: <=4 types, constants, 2-4 predicates, <=3 functions, actions with "
+    cov["rule"] = ("streams: corpus witnesses; the repository's own domains with conditional/universal effects (miconic, learned miconic, nurikabe, spider) with "
+                   "their shipped problems, states taken along a guided random walk; random typed domains (pddlgen: <=4 types, constants, 2-4 predicates, <=3 functions, actions with "
                    "add/del/assign/increase/decrease/when/forall-when kept consistent, layout/case/comment noise), 2-3 objects, random states, "
                    "type-correct calls incl. repeated objects and constants; the same with a quantified conjunct planted in a 'when' condition (D40 class); "
                    "the same with a clashing 'when' planted (inconsistent: judged only for 'no crash' by the spec, still compared with the model when the "
